@@ -12,7 +12,7 @@ MUTS="$@"
 PROPS=$(python3 -c "import json;print(' '.join(c['property_id'] for c in json.load(open('MANIFEST.json'))['checks']))")
 for m in $MUTS; do
   S=$(mktemp -d /tmp/verif-matrix-XXXXXX)
-  cp -r /repo/src /repo/Cargo.toml /repo/Cargo.lock "$S"/ 2>/dev/null
+  rsync -a --exclude target --exclude .git /repo/ "$S"/
   (cd "$S" && git apply --include='src/*' /verif/seeded/$m/patch.diff) || { echo "$m: patch does not apply" > $OUTD/$m.txt; rm -rf "$S"; continue; }
   : > $OUTD/$m.txt
   for p in $PROPS; do
